@@ -175,6 +175,10 @@ theorem C01_error_text_verbatim :
 theorem C01_results_pass_through_utils_call :
     Skeleton.current.ucResultsUntouched = true ∧ Skeleton.current.reqCallViaUtilsCall = true := by decide
 
+/-- A call that passes a function gets back what ITS function produced: the id under which the function is registered is fresh (a UUID drawn per registration — not, say, the table's current size, which repeats as soon as an earlier call has returned while a later one is pending), and what is stored under it is that function's wrapper itself (checked against the regenerated skeleton; `rpc/manager.go` is outside this property's anchors). -/
+theorem C01_closure_ids_never_collide :
+    Skeleton.current.clIdFresh = true ∧ Skeleton.current.clStoresCreatedClosure = true ∧ Skeleton.current.clInsertUnderLock = true := by decide
+
 end Panrpc.Sys
 
 #print axioms Panrpc.Sys.C01_ids_unique
@@ -189,3 +193,4 @@ end Panrpc.Sys
 #print axioms Panrpc.Sys.C01_needs_fresh_ids
 #print axioms Panrpc.Sys.C01_error_text_verbatim
 #print axioms Panrpc.Sys.C01_results_pass_through_utils_call
+#print axioms Panrpc.Sys.C01_closure_ids_never_collide
